@@ -41,6 +41,15 @@ def _acyclic(A):
 dsl.acyclic = _acyclic
 
 
+class _LazyImplies(ast.NodeTransformer):
+    """implies(a, b) must not evaluate b when a is false (b may index out of range)"""
+    def visit_Call(self, n):
+        self.generic_visit(n)
+        if isinstance(n.func, ast.Name) and n.func.id == 'implies' and len(n.args) == 2:
+            return ast.BoolOp(ast.Or(), [ast.UnaryOp(ast.Not(), n.args[0]), ast.Call(ast.Name('bool', ast.Load()), [n.args[1]], [])])
+        return n
+
+
 class Ctx:
     def __init__(self, contracts_dir, repo=None):
         self.db = ContractDB().load_dir(contracts_dir)
@@ -49,7 +58,7 @@ class Ctx:
         self.ns['np'] = np
         # spec functions: compile from the contract files (plain python)
         for name, fn in self.db.specs.items():
-            f2 = copy.deepcopy(fn)
+            f2 = _LazyImplies().visit(copy.deepcopy(fn))
             f2.decorator_list = []
             mod = ast.Module([f2], [])
             ast.fix_missing_locations(mod)
@@ -69,18 +78,22 @@ class Ctx:
         raise ImportError(q)
 
     def ev(self, node, env):
+        node = _LazyImplies().visit(copy.deepcopy(node))
+        ast.fix_missing_locations(node)
         code = compile(ast.Expression(node), '<clause>', 'eval')
         g = dict(self.ns)
         g.update(env)
+        dsl._CLAUSE_STATE[0] = np.random.get_state()
         return eval(code, g)
 
-    def check_call(self, q, kwargs, contract=None):
+    def check_call(self, q, kwargs, contract=None, ghost=None):
         """run the real function on kwargs and evaluate the contract. returns dict(status=..., clause=...)
         status: 'pre-false' | 'ok' | 'violated'"""
         c = contract or self.db.get(q)
         fn = self.resolve(q)
         env = dict(kwargs)
         old = {k: copy.deepcopy(v) for k, v in kwargs.items()}
+        old.update(ghost or {})
         self.ns['old'] = lambda x: x      # parameters are bound to their entry values in env (see below)
         for cl in c.of('requires'):
             for a in cl.args:
@@ -100,6 +113,8 @@ class Ctx:
         for k, v in kwargs.items():
             if k in exempt:
                 continue
+            if callable(v) and not hasattr(v, '__dict__'):
+                continue
             if not _same(v, old[k]):
                 return {'status': 'violated', 'clause': 'frame:%s' % k, 'observed': 'argument %s was modified' % k}
         env_post = dict(old)
@@ -116,6 +131,9 @@ class Ctx:
             if w is not None and self.ev(w, env_post):
                 return {'status': 'violated', 'clause': 'raises:%s when %s' % (name, ast.unparse(w)), 'observed': 'returned %s although the condition holds' % _short(result)}
         env_post['result'] = result
+        for cl in c.of('let'):
+            for k2, a in cl.kw.items():
+                env_post[k2] = self.ev(a, env_post)
         for cl in c.of('ensures'):
             for a in cl.args:
                 try:
@@ -135,6 +153,18 @@ class Ctx:
                 if isinstance(v, np.ndarray) and isinstance(result, np.ndarray) and np.shares_memory(v, result):
                     return {'status': 'violated', 'clause': 'fresh:result', 'observed': 'result shares memory with argument %s' % k}
         return {'status': 'ok', 'outcome': 'return'}
+
+
+def _nontrivial(v):
+    if isinstance(v, np.ndarray):
+        return bool(np.any(v != 0))
+    if isinstance(v, (int, float)) and not isinstance(v, bool):
+        return v != 0
+    if isinstance(v, (set, list, tuple, dict)):
+        return len(v) > 0
+    if hasattr(v, '__dict__'):
+        return any(_nontrivial(x) for x in vars(v).values())
+    return False
 
 
 def _same(a, b):
@@ -223,6 +253,9 @@ def gen_values(sort_src, rng, p_hint, budget):
                     C = L @ L.T + np.eye(p) * rng.choice((0.5, 1, 2))
                     m = np.array([rng.choice((-3, -1, 0, 2, 0.5)) for _ in range(p)], dtype=float)
                     out.append(NormalDistribution(m, C))
+                # integer-typed parameters (numpy keeps the dtype of the arrays it is given)
+                Li = np.array([[rng.choice((-1, 0, 1, 2)) if j <= i else 0 for j in range(p)] for i in range(p)], dtype=int)
+                out.append(NormalDistribution(np.array([rng.choice((-3, 1, 0, 2)) for _ in range(p)], dtype=int), Li @ Li.T + np.eye(p, dtype=int)))
             return out
         raise KeyError(sort_src)
     if s == 'Arr1i':
@@ -230,7 +263,7 @@ def gen_values(sort_src, rng, p_hint, budget):
         out += [np.array(v, dtype=int) for v in ((0, 0), (1, 1, 2), (2, 0, 2), (4,), (-1,))]
         return out
     if s in ('Arr1',):
-        return [np.array(v, dtype=float) for n in (0, 1, 2, 3) for v in itertools.product((0, 1.5, -2), repeat=n)]
+        return [np.array(v, dtype=float) for n in (0, 1, 2, 3) for v in itertools.product((0, 1.5, -2), repeat=n)] + [np.array([0.5]), np.array([0.25, 2.5])]
     raise KeyError(sort_src)
 
 
@@ -239,8 +272,18 @@ def search(ctx, q, seed=0, budget=300, max_calls=20000, stop_on_first=True):
     c = ctx.db.get(q)
     rng = random.Random(seed)
     names = [p for p, _ in c.params]
+    gnames = [(k, v) for cl in c.of('ghost') for k, v in cl.kw.items()]
+    cases = c.options.get('cases') or {}
+    cnames = sorted(cases)
+    names = names + cnames
     try:
         doms = [gen_values(ast.unparse(a), rng, None, budget) for _, a in c.params]
+        for cn in cnames:
+            vals = []
+            for cv in cases[cn]:
+                vals += {'int': [0, 1, 42], 'none': [None], 'empty_dict': [{}]}.get(cv, [cv]) if isinstance(cv, str) else [cv]
+            doms.append(vals)
+        doms += [gen_values(ast.unparse(a), rng, None, budget) for _, a in gnames]
     except KeyError as e:
         return {'calls': 0, 'skipped': 'no generator for sort %s' % e}, None
     total = 1
@@ -258,17 +301,19 @@ def search(ctx, q, seed=0, budget=300, max_calls=20000, stop_on_first=True):
                 yield tuple(rng.choice(d) for d in doms)
     for combo in combos():
         kwargs = {n: copy.deepcopy(v) for n, v in zip(names, combo)}
-        r = ctx.check_call(q, kwargs, c)
+        ghost = {g[0]: v for g, v in zip(gnames, combo[len(names):])}
+        r = ctx.check_call(q, kwargs, c, ghost)
         if r['status'] == 'pre-false':
             continue
         calls += 1
         key = repr([(n, _jsonable(v)) for n, v in zip(names, combo)])
         if key not in seen:
             seen.add(key)
-            if any((isinstance(v, np.ndarray) and np.any(v != 0)) for v in combo):
+            if any(_nontrivial(v) for v in combo):
                 nontriv += 1
         if r['status'] == 'violated' and witness is None:
-            witness = {'function': q, 'inputs': {n: _jsonable(v) for n, v in zip(names, combo)}, 'clause': r['clause'], 'observed': r['observed']}
+            witness = {'function': q, 'inputs': {n: _jsonable(v) for n, v in zip(names, combo)}, 'ghost': {g[0]: _jsonable(v) for g, v in zip(gnames, combo[len(names):])},
+                       'clause': r['clause'], 'observed': r['observed']}
             if stop_on_first:
                 break
     return {'calls': calls, 'distinct_nontrivial': nontriv, 'domain': total}, witness
@@ -321,7 +366,15 @@ def _hashable(k):
 
 def replay(ctx, wit):
     kwargs = {k: _unjson(v) for k, v in wit['inputs'].items()}
-    return ctx.check_call(wit['function'], kwargs)
+    ghost = {k: _unjson(v) for k, v in (wit.get('ghost') or {}).items()}
+    c = ctx.db.get(wit['function'])
+    gn = [k for cl in c.of('ghost') for k in cl.kw]
+    if gn and not ghost:        # candidate from a solver model: ghost values may be among the inputs
+        ghost = {k: kwargs.pop(k) for k in gn if k in kwargs}
+        for k in gn:
+            ghost.setdefault(k, 3)
+    kwargs = {k: v for k, v in kwargs.items() if k not in gn}
+    return ctx.check_call(wit['function'], kwargs, ghost=ghost)
 
 
 def main(argv):
